@@ -123,6 +123,14 @@ class WindowedCoordinator:
                     )
                     break
 
+            # Events injected at the final barrier may be due exactly at
+            # end_time.  A sequential run still delivers those (t <= end_time),
+            # so give every partition one last, zero-length window.
+            if current_time >= self._end_time:
+                for name in self._simulations:
+                    _, elapsed = self._run_partition_window(name, self._end_time)
+                    partition_wall_times[name] += elapsed
+
         # Finalize each partition
         partition_summaries = {}
         for name, sim in self._simulations.items():
